@@ -228,6 +228,25 @@ Fixpoint wm (ts : list token) : bytes -> bool :=
   | TBad :: _ => fun _ => false
   end.
 
+(** The declarative reading of the token language that [wm] decides (Proofs: wm_spec). *)
+Definition noslash (a : bytes) : Prop := forall x, In x a -> x <> SLASH.
+
+Inductive Matches : list token -> bytes -> Prop :=
+| M_nil : Matches [] []
+| M_lit c r t : Matches r t -> Matches (TLit c :: r) (c :: t)
+| M_any x r t : x <> SLASH -> Matches r t -> Matches (TAny :: r) (x :: t)
+| M_class neg items x r t :
+    x <> SLASH -> in_class items x = negb neg -> Matches r t ->
+    Matches (TClass neg items :: r) (x :: t)
+| M_star a r t : noslash a -> Matches r t -> Matches (TStar :: r) (a ++ t)
+| M_stars a r t : noslash a -> Matches r t -> Matches (TStars :: r) (a ++ t)
+| M_glob_end t : Matches [TGlob] t
+    (* a trailing globstar matches everything *)
+| M_glob_zero x r t : Matches r t -> Matches (TGlob :: x :: r) t
+    (* "**/": zero directories — the token after the globstar (the slash) is skipped *)
+| M_glob_any a x r t : Matches (x :: r) t -> Matches (TGlob :: x :: r) (a ++ t).
+    (* "**/": any bytes, slashes included, then the rest starting at the slash *)
+
 Definition has_bad (ts : list token) : bool :=
   existsb (fun t => match t with TBad => true | _ => false end) ts.
 
